@@ -97,6 +97,20 @@ def reshape_failure_cases(
         and "failure_case" in failure_cases.columns
     ):
         reshaped_failure_cases = failure_cases
+    elif (
+        is_table(failure_cases)
+        and is_multiindex(failure_cases.index)
+        and failure_cases.index.has_duplicates
+    ):
+        # repeated index tuples cannot be unstacked by label
+        reshaped_failure_cases = _unstack_by_position(
+            failure_cases,
+            pd.Index(
+                _multiindex_to_frame(failure_cases)
+                .apply(tuple, axis=1)
+                .astype(str)
+            ),
+        )
     elif is_table(failure_cases) and is_multiindex(failure_cases.index):
         reshaped_failure_cases = (
             failure_cases.rename_axis("column", axis=1)  # type: ignore[call-overload]
@@ -123,17 +137,14 @@ def reshape_failure_cases(
         )
     elif is_table(failure_cases):
         index = failure_cases.index
-        # repeated or null index labels cannot be unstacked: unstack the row
-        # positions instead and map them back to the labels
-        by_position = index.has_duplicates or index.hasnans
-        if by_position:
-            failure_cases = failure_cases.reset_index(drop=True)
-        reshaped_failure_cases = failure_cases.unstack().reset_index()
-        reshaped_failure_cases.columns = ["column", "index", "failure_case"]  # type: ignore[call-overload,assignment]  # noqa
-        if by_position:
-            reshaped_failure_cases["index"] = index.take(
-                reshaped_failure_cases["index"].to_numpy()
+        if index.has_duplicates or index.hasnans:
+            # repeated or null index labels cannot be unstacked by label
+            reshaped_failure_cases = _unstack_by_position(
+                failure_cases, index
             )
+        else:
+            reshaped_failure_cases = failure_cases.unstack().reset_index()
+            reshaped_failure_cases.columns = ["column", "index", "failure_case"]  # type: ignore[call-overload,assignment]  # noqa
     elif is_field(failure_cases):
         reshaped_failure_cases = failure_cases.rename("failure_case")  # type: ignore[call-overload]
         reshaped_failure_cases.index.name = "index"
@@ -149,6 +160,14 @@ def reshape_failure_cases(
         if ignore_na
         else reshaped_failure_cases
     )
+
+
+def _unstack_by_position(failure_cases, labels):
+    """Unstack the row positions and map them back to the row labels."""
+    reshaped = failure_cases.reset_index(drop=True).unstack().reset_index()
+    reshaped.columns = ["column", "index", "failure_case"]
+    reshaped["index"] = labels.take(reshaped["index"].to_numpy())
+    return reshaped
 
 
 def _multiindex_to_frame(df):
